@@ -149,17 +149,37 @@ pub enum Mem {
     Mock(MockMem),
 }
 pub struct Built {
+    /// backing files of file-backed regions (kind 2), for reading the contents back with pread
+    pub files: Vec<Arc<std::fs::File>>,
     pub mem: Mem,
     pub lay: Vec<(u64, u64)>,
     pub bases: Vec<*mut u8>,   // host base of every region (from the mapping / heap block)
     pub regs: Vec<*const u8>,  // address of every region OBJECT, in collection order
 }
+fn memfd(size: u64) -> Arc<std::fs::File> {
+    use std::os::fd::FromRawFd;
+    // SAFETY: plain syscalls; the fd is owned by the returned File
+    unsafe {
+        let fd = libc::memfd_create(b"vmh-c03\0".as_ptr() as *const libc::c_char, 0);
+        assert!(fd >= 0, "memfd_create");
+        assert!(libc::ftruncate(fd, size as libc::off_t) == 0, "ftruncate");
+        Arc::new(std::fs::File::from_raw_fd(fd))
+    }
+}
+/// kind 0: anonymous GuestMemoryMmap, 1: MockMem, 2: file-backed (memfd, MAP_SHARED) GuestMemoryMmap
 pub fn build(kind: u64, lay: &[(u64, u64)]) -> Built {
-    if kind == 0 {
+    if kind == 0 || kind == 2 {
+        let mut files = Vec::new();
         let arcs: Vec<Arc<GuestRegionMmap<()>>> = lay
             .iter()
             .map(|&(s, l)| {
-                let mr = MmapRegion::<()>::new(l as usize).expect("mmap");
+                let mr = if kind == 2 {
+                    let f = memfd(l);
+                    files.push(f.clone());
+                    MmapRegion::<()>::from_file(vm_memory::FileOffset::from_arc(f, 0), l as usize).expect("mmap file")
+                } else {
+                    MmapRegion::<()>::new(l as usize).expect("mmap")
+                };
                 Arc::new(GuestRegionMmap::new(mr, GuestAddress(s)).expect("GuestRegionMmap::new"))
             })
             .collect();
@@ -170,13 +190,13 @@ pub fn build(kind: u64, lay: &[(u64, u64)]) -> Built {
         } else {
             GuestMemoryMmap::from_arc_regions(arcs.clone()).expect("from_arc_regions")
         };
-        Built { mem: Mem::Mmap(mem, arcs), lay: lay.to_vec(), bases, regs }
+        Built { files, mem: Mem::Mmap(mem, arcs), lay: lay.to_vec(), bases, regs }
     } else {
         let regions: Vec<MockRegion> = lay.iter().map(|&(s, l)| MockRegion::new(s, l)).collect();
         let bases = regions.iter().map(|r| r.host_ptr()).collect();
         let mem = MockMem { regions };
         let regs = mem.regions.iter().map(|r| r as *const MockRegion as *const u8).collect();
-        Built { mem: Mem::Mock(mem), lay: lay.to_vec(), bases, regs }
+        Built { files: Vec::new(), mem: Mem::Mock(mem), lay: lay.to_vec(), bases, regs }
     }
 }
 impl Built {
@@ -188,6 +208,17 @@ impl Built {
                 // SAFETY: inside the region's block
                 v.push(unsafe { std::ptr::read_volatile(self.bases[i].add(o)) });
             }
+        }
+        v
+    }
+    /// all bytes of all file-backed regions, read from the backing files with pread
+    pub fn dump_files(&self) -> Vec<u8> {
+        use std::os::unix::fs::FileExt;
+        let mut v = Vec::new();
+        for (i, f) in self.files.iter().enumerate() {
+            let mut b = vec![0u8; self.lay[i].1 as usize];
+            f.read_exact_at(&mut b, 0).expect("pread");
+            v.extend(b);
         }
         v
     }
